@@ -402,6 +402,32 @@ def _fd_prog(root):
     except FileNotFoundError:
         out.append("ENOENT")
     out.append(sorted(os.listdir(root + "/d")))
+    os.link(root + "/d/a", root + "/d/a2")
+    try:
+        os.link(root + "/d/a", root + "/d/b")
+    except FileExistsError:
+        out.append("link-EEXIST")
+    with open(root + "/d/a", "ab") as f:
+        f.write(b"+")
+    out.append(open(root + "/d/a2", "rb").read())
+    os.unlink(root + "/d/a")
+    out.append(open(root + "/d/a2", "rb").read())
+    os.makedirs(root + "/e/f/g")
+    open(root + "/e/f/x", "wb").close()
+    with os.scandir(root + "/e/f") as it:
+        out.append(sorted((e.name, e.is_dir(), e.is_file()) for e in it))
+    out.append(sorted(p.name for p in pathlib.Path(root + "/e").glob("*/*")))
+    shutil.rmtree(root + "/e")
+    out.append(os.path.exists(root + "/e"))
+    try:
+        shutil.rmtree(root + "/nope")
+    except FileNotFoundError:
+        out.append("rmtree-ENOENT")
+    shutil.rmtree(root + "/nope", ignore_errors=True)
+    with tempfile.TemporaryDirectory(dir=root) as td:
+        open(td + "/k", "wb").close()
+        os.mkdir(td + "/sub")
+    out.append(sorted(os.listdir(root)))
     return out
 
 
